@@ -29,7 +29,9 @@ RULE = ("cases = (stage outcomes: syntax error | validation error | ambiguous/un
         "execution) x (document as text | parsed) x (query | mutation=serial) x random field tree (depth<=3, object/list/leaf "
         "fields, per field outcome returns | raises ResolverError | argument coercion error, null and empty lists) x "
         "4 executor/runtime configurations x 0..3 middlewares x instrumentation stack (1..3 leaves, flat or nested "
-        "MultiInstrumentation, optional ApolloTracer) x random completion schedule; plus a bounded-exhaustive block "
+        "MultiInstrumentation, optional ApolloTracer; members overriding ALL hooks or a non-empty subset: start-only, end-only, "
+        "stage-only, field-only, field-end-only, field-start-only, query-only, random subsets; defined in one class, spread over a "
+        "subclass chain, or set as instance attributes; a hidden full recorder gives the reference for what each partial member must see) x random completion schedule; plus a bounded-exhaustive block "
         "(all outcome kinds x configurations x small trees x ALL schedules). distinct non-trivial = distinct canonical case "
         "with at least one hook event beyond query start/end")
 ASSUMPTIONS = [
@@ -52,6 +54,35 @@ TRUSTED = [
 CONFIGS = ["blocking", "exec-blocking", "threadpool", "asyncio"]
 OUTCOMES = ["exec", "syntax", "validation", "opsel-ambiguous", "opsel-unknown", "vars", "subscription-op"]
 HARD_TIMEOUT = 10.0
+KINDS = ["query+", "query-", "parsing+", "parsing-", "validation+", "validation-", "execution+", "execution-", "field+", "field-"]
+REF = 99          # hidden full recorder stacked outermost when a case has partial members (reference for what a member must see)
+PARTIAL_PRESETS = {
+    "start-only": [k for k in KINDS if k.endswith("+")],
+    "end-only": [k for k in KINDS if k.endswith("-")],
+    "stage-only": KINDS[:8],
+    "field-only": KINDS[8:],
+    "field-end-only": ["field-"],
+    "field-start-only": ["field+"],
+    "query-only": ["query+", "query-"],
+}
+STYLES = ["class", "subclass", "instance"]
+
+
+def method_of(kind):
+    return "on_%s_%s" % (kind[:-1], "start" if kind.endswith("+") else "end")
+
+
+def gen_partial(rng, instr):
+    """some members override only a non-empty subset of the ten hooks"""
+    out = {}
+    for i in leaves(instr):
+        if rng.random() < 0.6:
+            if rng.random() < 0.7:
+                hooks = list(PARTIAL_PRESETS[rng.choice(sorted(PARTIAL_PRESETS))])
+            else:
+                hooks = [k for k in KINDS if rng.random() < 0.4] or ["field-"]
+            out[str(i)] = {"hooks": hooks, "style": rng.choice(STYLES)}
+    return out
 
 
 # ---------------------------------------------------------------------------------------------
@@ -143,6 +174,8 @@ def gen_case(rng, size=2):
         "fields": instantiate(rng, tmpl, rng.choice([0.0, 0.15, 0.4]), novalidate),
         "sched": [rng.randint(0, 7) for _ in range(24)],
     }
+    if rng.random() < 0.3:
+        case["partial"] = gen_partial(rng, case["instr"])
     if outcome == "subscription-op":       # one root field, or validation (SingleFieldSubscriptions) rejects it first
         case["fields"] = case["fields"][:1]
         case["use_var"] = False
@@ -285,6 +318,15 @@ def model_fields(case):
     return fs
 
 
+def model_instr(instr, partial):
+    if isinstance(instr, int):
+        spec = partial.get(str(instr))
+        if spec is None:
+            return instr
+        return {"id": instr, "mask": sorted(KINDS.index(k) for k in set(spec["hooks"]))}
+    return [model_instr(c, partial) for c in instr]
+
+
 def model_request(case):
     out = case["outcome"]
     return {
@@ -298,7 +340,7 @@ def model_request(case):
         "subscriptionOp": out == "subscription-op",
         "serial": bool(case["serial"]),
         "mws": case["mws"],
-        "instr": case["instr"],
+        "instr": model_instr(case["instr"], case.get("partial") or {}),
         "fields": model_fields(case),
         "sched": case["sched"],
     }
@@ -439,12 +481,10 @@ class Hang(Exception):
     pass
 
 
-def make_instr(instr, log, tracers):
+def make_instr(instr, log, tracers, partial=None):
+    import types
     from py_gql.execution import Instrumentation, MultiInstrumentation
-
-    class Rec(Instrumentation):
-        def __init__(self, ident):
-            self.ident = ident
+    partial = partial or {}
 
     def mk(name, with_info):
         if with_info:
@@ -454,17 +494,39 @@ def make_instr(instr, log, tracers):
             def hook(self):
                 log.append(("h", self.ident, name, None))
         return hook
-    for st in ("query", "parsing", "validation", "execution"):
-        setattr(Rec, "on_%s_start" % st, mk(st + "+", False))
-        setattr(Rec, "on_%s_end" % st, mk(st + "-", False))
-    Rec.on_field_start = mk("field+", True)
-    Rec.on_field_end = mk("field-", True)
+
+    def fn_of(kind):
+        return mk(kind, kind.startswith("field"))
+
+    def rec(ident, spec):
+        hooks = KINDS if spec is None else [k for k in KINDS if k in spec["hooks"]]
+        style = "class" if spec is None else spec["style"]
+        if style == "instance":
+            # hooks set as INSTANCE attributes of a class that overrides nothing
+            inst = type("RecInstance", (Instrumentation,), {})()
+            inst.ident = ident
+            for k in hooks:
+                setattr(inst, method_of(k), types.MethodType(fn_of(k), inst))
+            return inst
+        if style == "subclass":
+            # a subclass of a subclass: the hooks are spread over two levels, the leaf class adds nothing
+            half = (len(hooks) + 1) // 2
+            Base = type("RecBase", (Instrumentation,), {method_of(k): fn_of(k) for k in hooks[:half]})
+            Mid = type("RecMid", (Base,), {method_of(k): fn_of(k) for k in hooks[half:]})
+            cls = type("RecLeaf", (Mid,), {})
+        else:
+            cls = type("Rec", (Instrumentation,), {method_of(k): fn_of(k) for k in hooks})
+        inst = cls()
+        inst.ident = ident
+        return inst
 
     def build(x):
         if isinstance(x, int):
-            return Rec(x)
+            return rec(x, partial.get(str(x)))
         return MultiInstrumentation(*[build(c) for c in x])
     top = build(instr)
+    if any(str(i) in partial for i in leaves(instr)):
+        top = MultiInstrumentation(rec(REF, None), top)
     if tracers is not None:
         from py_gql.tracers import ApolloTracer
         tr = ApolloTracer()
@@ -501,7 +563,7 @@ def run_real(case):
     rc = RunCtx(plan_of(case))
     log = rc.log
     tracers = [] if case.get("tracer") else None
-    instr = make_instr(case["instr"], log, tracers)
+    instr = make_instr(case["instr"], log, tracers, case.get("partial"))
     mws = make_middlewares(case["mws"], log)
     doc = text
     if not case["doc_is_text"]:
@@ -630,10 +692,43 @@ STAGES = ("query", "parsing", "validation", "execution")
 def oracle(case, log, payload):
     """-> list of (signature, what)"""
     bad = []
-    ids = leaves(case["instr"])
+    all_ids = leaves(case["instr"])
+    partial = {int(k): v for k, v in (case.get("partial") or {}).items() if int(k) in all_ids}
     cfg = case["config"]
     oc = case["outcome"]
     tag = "%s:%s" % (oc, "text" if case["doc_is_text"] else "ast")
+    full_log = log
+    has_ref = any(e[0] == "h" and e[1] == REF for e in full_log) or bool(partial)
+    # --- partial members: each sees exactly what a full instrumentation sees, restricted to the hooks it overrides
+    ref_seen = [(e[2], e[3]) for e in full_log if e[0] == "h" and e[1] == REF]
+    for ident, spec in sorted(partial.items()):
+        seen = [(e[2], e[3]) for e in full_log if e[0] == "h" and e[1] == ident]
+        want = [x for x in ref_seen if x[0] in spec["hooks"]]
+        if seen != want:
+            missing = sorted({x[0] for x in want} - {x[0] for x in seen})
+            extra = sorted({x[0] for x in seen} - {x[0] for x in want})
+            cls = "misses:" + ",".join(missing) if missing else ("extra:" + ",".join(extra) if extra else "count-or-order")
+            bad.append(("multi-member:%s:overrides=%s:%s" % (cls, override_class(spec["hooks"]), spec["style"]),
+                        "stacked member %d (overrides %s, %s) saw %d hooks, a directly passed instance sees %d: %s vs %s"
+                        % (ident, spec["hooks"], spec["style"], len(seen), len(want), seen[:6], want[:6])))
+    # --- stacking order over ALL members: a start hook reaches the overriding members in order, an end hook in reverse
+    stack_log = [e for e in full_log if e[0] == "h" and e[1] != REF]
+    g = 0
+    while g < len(stack_log):
+        name, p = stack_log[g][2], stack_log[g][3]
+        h = g
+        while h < len(stack_log) and stack_log[h][2] == name and stack_log[h][3] == p:
+            h += 1
+        order = [i for i in all_ids if i not in partial or name in partial[i]["hooks"]]
+        want = order if name.endswith("+") else order[::-1]
+        if [e[1] for e in stack_log[g:h]] != want:
+            bad.append(("multi-order:%s:%s" % (name.rstrip("+-") if p is None else "field", "start" if name.endswith("+") else "end"),
+                        "stacked instrumentations %s ran %s as %s, expected %s" % (all_ids, name, [e[1] for e in stack_log[g:h]], want)))
+            break
+        g = h
+    # everything below is checked on the FULL recorders (the hidden reference counts as one)
+    ids = [i for i in all_ids if i not in partial] + ([REF] if has_ref and ref_seen else [])
+    log = [e for e in full_log if not (e[0] == "h" and e[1] in partial)]
     for ident in ids:
         hooks = [(e[2], e[3]) for e in log if e[0] == "h" and e[1] == ident]
         # --- stages: at most once, well bracketed, an end for every start, inside query
@@ -707,24 +802,19 @@ def oracle(case, log, payload):
     for k in idx:
         if k[0] == "mw>" and ("call", k[1]) not in idx:
             bad.append(("middleware-without-call:%s" % cfg, "field %s: middlewares ran but the resolver did not" % pstr(k[1])))
-    # --- stacking: starts in order, ends reversed (hook groups are contiguous)
-    hooks = [e for e in log if e[0] == "h"]
-    k = len(ids)
-    if len(hooks) % k != 0:
-        bad.append(("multi-group-size:%s" % cfg, "%d hook events for %d instrumentations" % (len(hooks), k)))
-    else:
-        for g in range(0, len(hooks), k):
-            grp = hooks[g:g + k]
-            name, p = grp[0][2], grp[0][3]
-            want = ids if name.endswith("+") else ids[::-1]
-            if any(e[2] != name or e[3] != p for e in grp) or [e[1] for e in grp] != want:
-                bad.append(("multi-order:%s:%s" % (name.rstrip("+-") if p is None else "field", "start" if name.endswith("+") else "end"),
-                            "stacked instrumentations %s ran %s as %s" % (ids, name, [(e[1], e[2]) for e in grp])))
-                break
     # --- ApolloTracer
     if payload is not None:
-        bad += tracer_oracle(case, log, payload)
+        bad += tracer_oracle(case, full_log, payload)
     return bad
+
+
+def override_class(hooks):
+    hs = set(hooks)
+    for name, preset in sorted(PARTIAL_PRESETS.items()):
+        if hs == set(preset):
+            return name
+    has_fs, has_fe = "field+" in hs, "field-" in hs
+    return "mixed(field%s%s)" % ("+" if has_fs else "", "-" if has_fe else "")
 
 
 def tracer_oracle(case, log, payload):
@@ -811,6 +901,10 @@ def shrink(case, failing, budget=60):
             d = copy.deepcopy(c); d["mws"] -= 1; yield d
         if c["instr"] != 0:
             d = copy.deepcopy(c); d["instr"] = 0; yield d
+        for key in sorted(c.get("partial") or {}):
+            d = copy.deepcopy(c)
+            del d["partial"][key]
+            yield d
         if c.get("tracer") and not sig.startswith("tracer"):
             d = copy.deepcopy(c); d["tracer"] = False; yield d
         if c["use_var"] and c["outcome"] != "vars":
@@ -847,7 +941,7 @@ def shrink(case, failing, budget=60):
 # ---------------------------------------------------------------------------------------------
 def real_trace(case):
     log, result, err, payload = run_real(case)
-    return [ev_str(e) for e in log], log, result, err, payload
+    return [ev_str(e) for e in log if not (e[0] == "h" and e[1] == REF)], log, result, err, payload
 
 
 def check_cases(ctx, cases):
@@ -925,6 +1019,28 @@ def exhaustive_cases():
                     out.append({"config": cfg, "outcome": oc, "doc_is_text": text, "serial": serial, "novalidate": False,
                                 "use_var": oc == "vars", "mws": 2, "instr": [0, 1], "tracer": True,
                                 "fields": copy.deepcopy(forest[:1] if oc == "subscription-op" else forest), "sched": [0] * 12})
+    # partial members: every preset x every style at every position of a 3-stack (flat and nested), all configurations
+    presets = sorted(PARTIAL_PRESETS)
+    n = 0
+    for cfg in CONFIGS:
+        for pname in presets:
+            for style in STYLES:
+                for pos in (0, 1, 2):
+                    n += 1
+                    stack = [[0, 1, 2], [[0, 1], 2], [0, [1, 2]]][n % 3]
+                    partial = {str(pos): {"hooks": list(PARTIAL_PRESETS[pname]), "style": style}}
+                    if n % 4 == 0:      # a second partial member next to it
+                        other = (pos + 1) % 3
+                        partial[str(other)] = {"hooks": list(PARTIAL_PRESETS[presets[(n // 4) % len(presets)]]), "style": STYLES[n % 3]}
+                    out.append({"config": cfg, "outcome": ["exec", "exec", "syntax", "validation", "vars"][n % 5], "doc_is_text": True,
+                                "serial": n % 2 == 0, "novalidate": False, "use_var": n % 5 == 4, "mws": n % 3, "instr": stack,
+                                "tracer": n % 6 == 0, "partial": partial, "fields": copy.deepcopy(forest), "sched": [n % 3, 1, 0] + [0] * 9})
+    # all members partial (only the hidden reference is full)
+    for cfg in CONFIGS:
+        out.append({"config": cfg, "outcome": "exec", "doc_is_text": True, "serial": False, "novalidate": False, "use_var": False,
+                    "mws": 1, "instr": [0, 1], "tracer": False,
+                    "partial": {"0": {"hooks": ["field-"], "style": "class"}, "1": {"hooks": ["field+", "query-"], "style": "instance"}},
+                    "fields": copy.deepcopy(forest), "sched": [0] * 12})
     import itertools
     for cfg in ("threadpool", "asyncio"):
         for serial in (False, True):
